@@ -434,7 +434,31 @@ func propC15(w *World, r *Report) {
 		}
 	}
 	nc := 0
+	kinds := map[string]bool{}
+	// the background update and the methods of the detector it calls (an extracted border-replication helper)
+	bgFuncs := []*ssa.Function{k.updateBg}
 	for _, b := range k.updateBg.Blocks {
+		for _, in := range b.Instrs {
+			if c, ok := in.(*ssa.Call); ok {
+				if callee := c.Call.StaticCallee(); callee != nil && callee.Signature.Recv() != nil && isPtrTo(callee.Signature.Recv().Type(), d.T) && len(callee.Blocks) > 0 && callee != k.calcThresh {
+					dup := false
+					for _, f := range bgFuncs {
+						if f == callee {
+							dup = true
+						}
+					}
+					if !dup {
+						bgFuncs = append(bgFuncs, callee)
+					}
+				}
+			}
+		}
+	}
+	var bgBlocks []*ssa.BasicBlock
+	for _, f := range bgFuncs {
+		bgBlocks = append(bgBlocks, f.Blocks...)
+	}
+	for _, b := range bgBlocks {
 		for _, in := range b.Instrs {
 			call, ok := in.(*ssa.Call)
 			if !ok {
@@ -455,17 +479,20 @@ func propC15(w *World, r *Report) {
 			name := fmt.Sprintf("background copy #%d", nc)
 			switch {
 			case dst.lo != nil:
+				kinds["seed"] = true
 				r.Check(src.frame == ssa.Value(k.updateBg.Params[1]) && dst.row == src.row, "A3", name+": seed copies the interior columns of the same input row", w.InstrPos(call), "")
 			case drow.ok && drow.lo == (lin{}) && drow.hi == (lin{s: 1, k: -1}):
+				kinds["top"] = true
 				r.Check(srow.ok && srow.lo == linS && srow.hi == linS, "A3", name+": top border rows <- first interior row", w.InstrPos(call), fmt.Sprintf("src row [%s,%s]", srow.lo, srow.hi))
 			case drow.ok && drow.lo == (lin{r: 1}) && drow.hi == (lin{r: 1, s: 1, k: -1}):
+				kinds["bottom"] = true
 				r.Check(srow.ok && srow.lo == linR1 && srow.hi == linR1, "A3", name+": bottom border rows <- last interior row", w.InstrPos(call), fmt.Sprintf("src row [%s,%s]", srow.lo, srow.hi))
 			default:
 				r.Fail("A3", name, w.InstrPos(call), fmt.Sprintf("destination rows [%s,%s] not understood", drow.lo, drow.hi), "")
 			}
 		}
 	}
-	r.Check(nc >= 5, "G4", "border replication copies found", "-", fmt.Sprint(nc))
+	r.Check(kinds["seed"] && kinds["top"] && kinds["bottom"], "G4", "border replication copies found (seed, top rows, bottom rows)", "-", fmt.Sprintf("%d copies, kinds %v", nc, kinds))
 	// A4
 	curField := -1
 	for _, b := range d.Detect.Blocks {
